@@ -303,6 +303,8 @@ func (p *HTTPProxy) Serve(c net.Conn) {
 		return
 	case p.Reply == "eof":
 		return
+	case p.Reply == "100 Continue":
+		io.WriteString(conn, "HTTP/1.1 100 Continue\r\n\r\nHTTP/1.1 200 Connection established\r\n\r\n")
 	case p.Reply == "" || strings.HasPrefix(p.Reply, "200"):
 		st := p.Reply
 		if st == "" {
